@@ -163,6 +163,7 @@ def addLine (p : Prog) (ws : List String) : Prog :=
   | ["config", "clock0", v] => { p with clock0 := nat! v }
   | ["config", "cblimit", v] => { p with cblimit := nat! v }
   | "config" :: "eintr" :: _ => p
+  | ["config", "polllimit", _] => p
   | "on" :: key :: occ :: rest =>
     match keyOf key with
     | some k => { p with table := p.table ++ [(k, nat! occ, (splitOn rest ";").map parseOp)] }
